@@ -236,6 +236,16 @@ pub fn gen_inputs(rng: &mut StdRng, n: usize, with_trailing: bool) -> Vec<Input>
             d.extend_from_slice(&trailing);
             v.push(Input { fmt: Fmt::Lzma2, data: d, name: format!("lzma2-raw-between/{}+{}", i, trailing.len()), payload_len: Some(pl) });
         }
+        if !with_trailing && i % 3 == 0 {
+            // LZMA2 chunk whose properties byte is below 225 but has lc + lp > 4, with a payload that is well-formed
+            // under those properties: whatever the verdict, it must not depend on where the reader's fragments end
+            let bp = Props { lc: [4u32, 3, 8][i / 3 % 3], lp: [1u32, 2, 4][i / 3 % 3], pb: 2 };
+            let enc = coding::encode_program(&[Sym::Lit { b: 1 }, Sym::Lit { b: 2 }, Sym::Match { d: 2, n: 6 }], bp);
+            let mut d = crate::build::lzma2_chunk_header(3, enc.out.len(), enc.payload.len(), Some(bp));
+            d.extend_from_slice(&enc.payload);
+            d.push(0);
+            v.push(Input { fmt: Fmt::Lzma2, data: d, name: format!("lzma2-props-lc{}lp{}+0", bp.lc, bp.lp), payload_len: None });
+        }
         // XZ
         let mut f = XzFile { check: [1u8, 4, 0][i % 3], ..Default::default() };
         f.blocks.push(XzBlock { payload: s, content: o, hsize: [0usize, 16, 24][i % 3], has_packed: i % 2 == 0, has_unpacked: i % 3 == 0, ..Default::default() });
@@ -369,8 +379,9 @@ pub fn run_c11(prop: &str, seed: u64, n: usize, rep: &mut Report) {
                     if has_trailing && r.verdict == Verdict::Ok {
                         vs.push("trailing bytes after the end of the stream were accepted".into());
                     }
-                    if !has_trailing && r.verdict != Verdict::Ok {
-                        vs.push(format!("valid file rejected: {}", r.msg));
+                    if !has_trailing && r.verdict != Verdict::Ok && r.verdict != Verdict::Panic {
+                        // that a valid file decodes is C01 / C03's text, not C11's
+                        rep.drift(format!("(C01/C03 clause seen while checking {}) valid file rejected: {}", prop, r.msg), json!({"input": inp.name}));
                     }
                 }
             }
